@@ -2,8 +2,7 @@
 # try_seeded.sh <scratch worktree> <patch.diff> <demo file> <demo destination (relative)> <go test args...>
 # Confirms a seeded change in a scratch worktree of /repo (reset to /repo's HEAD): (1) the demonstration
 # passes on the unchanged tree, (2) with the patch the repository builds and its own suite passes,
-# (3) with the patch the demonstration fails; then (4) applies the patch to /repo, runs all 18 quick
-# checks, and undoes it straight afterwards.
+# (3) with the patch the demonstration fails; then (4) runs all 18 quick checks on a scratch copy of /repo with the patch applied.
 export UHLINT_EVIDENCE_DIR=$(mktemp -d /tmp/uhlint-ev.XXXXXX)  # never overwrite /verif/evidence from a modified tree
 set -u
 export GOFLAGS=-mod=mod GOPROXY=off GOSUMDB=off GOTOOLCHAIN=local; unset GOWORK
@@ -24,17 +23,12 @@ if [ $ok = 1 ]; then echo "2 suite with patch: PASS (ok)"; else echo "2 suite wi
 cp "$demo" "$wt/$dest"
 if go test -vet=off -count=1 "$@" >/tmp/try_demo_patched.log 2>&1; then echo "3 demo with patch: PASS (bad)"; else echo "3 demo with patch: FAIL (ok)"; grep -m3 -e '--- FAIL' -e 'panic' -e 'DATA RACE' /tmp/try_demo_patched.log; fi
 git checkout -q -- . && git clean -fdq
-cd /repo
-git diff --quiet || { echo "/repo not clean"; exit 2; }
-trap 'git -C /repo checkout -q -- . ; git -C /repo clean -fdq' EXIT
-git apply "$patch" || { echo "patch does not apply to /repo"; exit 2; }
-hits=""
-for i in 01 02 03 04 05 06 07 08 09 10 11 12 13 14 15 16 17 18; do
-  out=$(/verif/bin/uhlint check C$i 2>/dev/null)
-  if echo "$out" | grep -q '^VIOLATION'; then
-    hits="$hits C$i$(echo "$out" | grep -o '^[^ ]*: \[[A-Za-z0-9-]*\]' | grep -o '\[[A-Za-z0-9-]*\]' | sort -u | tr -d '\n')"
-    echo "$out" | grep -v -e '^VIOLATION' -e WARNING | grep '\[' | head -2 | cut -c1-330 | sed "s/^/     C$i: /"
-  fi
-done
-git checkout -q -- . && git clean -fdq
+# (4) the checks, on a scratch copy of /repo with the patch applied (never on /repo itself)
+copy=$(mktemp -d /tmp/uhlint-try.XXXXXX)
+rsync -a --exclude .git /repo/ "$copy/"
+( cd "$copy" && git apply "$patch" ) || { echo "patch does not apply to /repo"; rm -rf "$copy"; exit 2; }
+out=$(UHLINT_REPO="$copy" /verif/bin/uhlint check ALL 2>/dev/null)
+rm -rf "$copy" "$UHLINT_EVIDENCE_DIR"
+hits=$(echo "$out" | awk '/^VIOLATION property=/{split($2,a,"="); p=a[2]; for(i in cur){ if (match(cur[i], /\[[A-Za-z0-9-]+\]/)) h[p]=h[p] substr(cur[i],RSTART,RLENGTH) } delete cur; n=0; next} /^C[0-9]+ tier=/{delete cur; n=0; next} {cur[n++]=$0} END{for(p in h) printf " %s%s", p, h[p]}')
+echo "$out" | grep -v -e '^VIOLATION' -e WARNING -e ' tier=' | grep '\[' | sort -u | head -6 | cut -c1-330 | sed "s/^/     /"
 echo "4 checks firing:${hits:- NONE}"
